@@ -2432,6 +2432,14 @@ hsStateDetermined:
             fragLen += *c; c++;
             if (fragLen != hsLen)
             {
+                /* The fragment has to be inside the record that carries it:
+                   fragLen bytes are copied from here further down. */
+                if ((uint32) (end - c) < fragLen)
+                {
+                    ssl->err = SSL_ALERT_DECODE_ERROR;
+                    psTraceErrr("Fragment longer than its record\n");
+                    return MATRIXSSL_ERROR;
+                }
 /*
                 Have a fragmented message here.  Allocate if first time
                 seen and assign msn.  Can only deal with single fragmented
